@@ -159,9 +159,9 @@ pub fn plan_for(prop: &str, tier: Tier, seed: u64, verif_dir: &str) -> Option<Pl
 			tier,
 			seed,
 			jobs: vec![
-				job("lnsim", "crashsweep", n(16, 200)),
-				job("lnsim", "crash", n(400, 8000)),
-				job("lnsim", "asynccrash", n(400, 8000)),
+				job("lnsim", "crashsweep", n(16, 150)),
+				job("lnsim", "crash", n(400, 6000)),
+				job("lnsim", "asynccrash", n(400, 6000)),
 			],
 			level: "fault_enumeration".into(),
 			rule: "two jobs. `crashsweep`: a seeded base scenario (profile crash) is recorded, then re-executed once per crash point k = every Persist call of every node (freeze-and-discard inside the k-th call, with the write either lost or surviving) and once per action boundary, each followed by restart, settle and liquidation - an enumeration of the crash points of that scenario. `crash`: seeded runs with several crashes (also during recovery), ChannelManager snapshots of seeded staleness; `asynccrash`: the same with two thirds of the nodes persisting asynchronously and a third behind a deferred ChainMonitor, so that most crashes find monitor writes in flight. Oracles: C10-1 monitors and manager deserialize, restart does not panic; C10-2 a channel whose monitor is ahead is closed not resumed; all C02/C03/C04/C05/C07 oracles stay armed after the restart (revoked state never signed or broadcast, payments reach truthful terminal events, wealth). One evaluation = one seeded run (config, schedule and faults all drawn from the run seed; replay executes the recorded action trace). non-trivial = the run executed at least one payment/HTLC to a terminal state or fired at least one fault; distinct = distinct FNV hash of the executed (action kind, actor) sequence.".into(),
